@@ -32,6 +32,8 @@ def required_cells(tier):
     req["history:direction-vector-reused-after-assignment"] = 300
     req["history:construction-points-moved-before-first-use"] = 300
     req["history:factory-objects-used-then-directions-compared"] = 50
+    req["nt:Fraction"] = 1000
+    req["history:plane-built-from-a-unit-vector-the-caller-then-redirects"] = 100
     req["nt:int"] = 1000
     req["gen:near-parallel"] = 1000
     return req
@@ -82,6 +84,13 @@ def cases(rng, budget, widx, nworkers, tier):
             v = gen.rdir(rng, 4)
             label = "random"
         n += 1
+        if n % 97 == 0:
+            ax = [F(0)] * 3
+            ax[rng.randrange(3)] = F(rng.choice((1, -1)))
+            w = gen.rdir(rng, 3)
+            if K.cross(w, tuple(ax)) != (0, 0, 0):
+                yield {"k": "redirect", "n": tuple(ax), "w": w, "u": u, "v": v, "combo": 0, "label": "redirect", "p": gen.rpt(rng), "o": gen.rdir(rng, 3)}
+                continue
         if n % 400 == 0:
             yield {"k": "factory", "w": [float(c) for c in gen.rdir(rng, 2)], "u": u, "v": v, "combo": 0, "label": "factory"}
             continue
@@ -199,9 +208,49 @@ def _judge_factory(case):
     return mu.result()
 
 
+def _judge_redirect(case):
+    """Plane(P, v) from a caller's vector v of length exactly 1; the caller then overwrites v with another direction.
+    Whether the plane keeps its own copy or follows v is its business - its normal is read back, and angle / parallel /
+    orthogonal against another direction must be those of THAT normal"""
+    G = load()
+    mu = core.Multi()
+    mu.cell("history:plane-built-from-a-unit-vector-the-caller-then-redirects")
+    n, w, o = case["n"], case["w"], case["o"]
+    try:
+        vec = G.Vector(*[float(c) for c in n])
+        pl = G.Plane(G.Point(*[float(c) for c in case["p"]]), vec)
+        for i in range(3):
+            vec[i] = float(w[i])
+        now = tuple(F(float(c)) for c in pl.n)
+    except Exception as ex:
+        mu.fail("redirect:raises-" + type(ex).__name__, "building a plane from a unit vector / editing the vector raised %r" % ex)
+        return mu.result()
+    if any(c.denominator > 64 for c in now) or now == (0, 0, 0):
+        return core.not_admitted("normal-not-readable-exactly")
+    other = G.Line(G.Point(0.5, -1.0, 2.0), G.Vector(*[float(c) for c in o]))
+    c2 = K.cos2(now, o)
+    cr = K.cross(now, o)
+    dotv = K.dot(now, o)
+    want_par, want_orth = (dotv == 0), (cr == (0, 0, 0))            # line vs plane
+    want_ang = math.asin(min(1.0, math.sqrt(float(c2))))
+    for x, y in ((pl, other), (other, pl)):
+        try:
+            ang, par, orth = G.angle(x, y), G.parallel(x, y), G.orthogonal(x, y)
+        except Exception as ex:
+            mu.fail("redirect:raises-" + type(ex).__name__, "angle / parallel / orthogonal raised %r" % ex)
+            return mu.result()
+        if abs(ang - want_ang) > 1e-6:
+            mu.fail("PL,L:angle:wrong-value/plane-whose-normal-vector-was-redirected", "angle = %r, the plane's own normal %r gives %r" % (ang, tuple(float(c) for c in now), want_ang))
+        if bool(par) != want_par or bool(orth) != want_orth:
+            mu.fail("PL,L:parallel-orthogonal:wrong/plane-whose-normal-vector-was-redirected", "parallel %r orthogonal %r, the plane's own normal gives %r %r" % (par, orth, want_par, want_orth))
+    return mu.result()
+
+
 def judge(case):
     if case.get("k") == "factory":
         return _judge_factory(case)
+    if case.get("k") == "redirect":
+        return _judge_redirect(case)
     G = load()
     u, v = case["u"], case["v"]
     ka, kb = COMBOS[case["combo"]]
@@ -234,6 +283,12 @@ def judge(case):
         p = tuple(F(int(c)) for c in p)
         q = tuple(F(int(c)) for c in q)
         mu.cell("nt:int")
+    elif case.get("ls", 0) % 4 == 1 and not h:
+        # exact rationals, with the directions halved or quartered (the same directions: angles are unchanged)
+        nt = F
+        sc = (F(1, 2), F(1, 4), F(3, 2))[(case.get("ls", 0) // 4) % 3]
+        u, v = K.mul(u, sc), K.mul(v, sc)
+        mu.cell("nt:Fraction")
     am = case.get("args_moved")
     if am and nt is float and ("PL" in (ka, kb) or "L" in (ka, kb)):
         mu.cell("history:construction-points-moved-before-first-use")
